@@ -957,7 +957,11 @@ func (x *Exec) execInstrs(fr *frame, st *State, b *ssa.BasicBlock, from int, pre
 		case *ssa.MakeMap:
 			x.doMakeMap(fr, st, in)
 		case *ssa.MakeChan:
-			fr.regs[in] = x.freshRef(st, "obj")
+			ref := x.freshRef(st, "chan")
+			fr.regs[in] = ref
+			// the capacity of a channel is fixed at creation (contracts: cap(ch))
+			f := x.ctx.Fun("chancap$", []string{smt.Int}, smt.Int)
+			st.assume(smt.Eq(smt.App(smt.Int, f, ref), x.val(fr, st, in.Size)))
 		case *ssa.Phi:
 			set := false
 			for k, e := range in.Edges {
